@@ -110,6 +110,54 @@ async def sk_delete_folder_with_stray_files_recreate(hp, w, rnd, ctx):
     await w.observe()
 
 
+async def sk_kill_between_commands(hp, w, rnd, ctx):
+    """The user process is killed (not shut down) at quiet moments -- after a
+    DELETE that left a placeholder, after a delete-and-create, after a RENAME,
+    after an EXPUNGE: every answer it had given before stays true afterwards
+    (UIDVALIDITY of a name created again larger than any it had; UIDNEXT above
+    every UID revealed; UIDs naming what they named)."""
+    a = w.session()
+    await w.op_create(a, "proj/sub")
+    for i in range(3):
+        await w.op_append(a, "proj", flags=["\\Seen"])
+    await w.op_select(a, "proj")
+    await w.op_fetch(a, [1, 2, 3], "UID FLAGS")
+    await w.op_select(a, "INBOX")
+    await w.observe()
+    await w.op_delete(a, "proj")  # stays as a placeholder: proj/sub exists
+    await w.observe()
+    await w.restart(kill=True)
+    a = w.session()
+    await w.op_create(a, "proj")
+    await w.op_append(a, "proj")
+    await w.observe()
+    await w.op_create(a, "leaf")
+    await w.op_append(a, "leaf")
+    await w.op_append(a, "leaf")
+    await w.observe()
+    await w.op_delete(a, "leaf")
+    await w.op_create(a, "leaf")
+    await w.restart(kill=True)
+    a = w.session()
+    await w.op_append(a, "leaf")
+    await w.observe()
+    await w.op_rename(a, "leaf", "twig")
+    await w.op_append(a, "twig")
+    await w.restart(kill=True)
+    a = w.session()
+    await w.op_create(a, "leaf")
+    await w.op_append(a, "leaf")
+    await w.op_append(a, "twig")
+    await w.observe()
+    await w.op_select(a, "twig")
+    await w.op_store(a, [1, 2], "add", ["\\Deleted"])
+    await w.op_expunge(a)
+    await w.restart(kill=True)
+    a = w.session()
+    await w.op_append(a, "twig")
+    await w.observe()
+
+
 async def sk_expunge_all_restart_deliver(hp, w, rnd, ctx):
     a = w.session()
     for i in range(3):
@@ -144,7 +192,7 @@ async def sk_rename_then_refill(hp, w, rnd, ctx):
 class C02(HistProp):
     prop = PROP
     names = ["INBOX", "other", "arch"]
-    skeletons = [sk_expunge_last_then_append, sk_delete_recreate, sk_expunge_all_restart_deliver, sk_rename_then_refill, sk_delete_restart_recreate, sk_delete_folder_with_stray_files_recreate]
+    skeletons = [sk_expunge_last_then_append, sk_delete_recreate, sk_expunge_all_restart_deliver, sk_rename_then_refill, sk_delete_restart_recreate, sk_delete_folder_with_stray_files_recreate, sk_kill_between_commands]
     weights = {"append": 12, "store_del": 9, "expunge": 8, "uid_expunge": 4, "copy": 6, "move": 5, "deliver": 6, "restart": 2, "create": 2, "delete": 2,
                "rename": 1, "rename_inbox": 1, "advance": 4, "idle": 1, "fetch_body": 1, "store": 2}
     opts = {"create_names": ["other", "arch", "arch/sub", "tmp"], "rename_targets": ["moved", "arch/moved", "deep/er", "saved"]}
